@@ -898,7 +898,7 @@ class Emitter:
         vocabulary enum (optional key `payload: {variant: [types]}`), else None"""
         if len(p.segs) < 2:
             return None
-        en = self.v.get("enums", {}).get(p.segs[-2])
+        en = self.v.get("enums", {}).get(self.self_struct if p.segs[-2] == "Self" and self.self_struct else p.segs[-2])
         if en is None or p.segs[-1] not in en.get("payload", {}) or p.segs[-1] not in en["variants"]:
             return None
         tys = en["payload"][p.segs[-1]]
